@@ -236,6 +236,41 @@ def t6(F, rep):
     rep.add("T6", "reader-keeps-no-code-tables", not held, "%s:%s" % (b.file, b.line), "DeflateReader fields holding Huffman state across blocks: %s" % held)
 
 
+def t7(F, rep):
+    """LZ77 copy (RFC 1951 3.2.3): a <length, distance> pair copies `length` bytes starting `distance` bytes back in the
+    output.  write_reference must take its source from `plain_text.len() - dist` with the decoded distance itself (no clamp,
+    no offset) and append byte by byte from there, or — for non-overlapping copies only — in one block of `len` bytes."""
+    b = F.body(P + "deflate_reader::DeflateReader::<R>::write_reference")
+    where = "%s:%s" % (b.file, b.line)
+    PT = r"arg<&mut preflate_rs::deflate_reader::DeflateReader<R>>\.plain_text"
+    START = r"Sub\(len\(%s\), (cast\()?arg<u32>#0\)?\)(\.0)?" % PT
+    IDX = r"next\(into_iter\(Range\{K0, (cast\()?arg<u32>#1\)?\}\)\) as Some\.0"
+    pushes = [(bb, t) for bb, t in b.calls() if strip_generics(callee_def(t)).endswith("Vec::push") and re.match("^%s$" % PT, flow.describe(b, t["args"][0]))]
+    within = [(bb, t) for bb, t in b.calls() if strip_generics(callee_def(t)).endswith("Vec::extend_from_within")]
+    other = [strip_generics(callee_def(t)) for bb, t in b.calls() if re.search(r"Vec::(extend|extend_from_slice|insert|truncate|resize|append|drain|set_len)$", strip_generics(callee_def(t)))]
+    # the pushed byte is plain_text[start + i]: look at the index call itself (nested descriptors are abbreviated)
+    idxc = [(bb, t) for bb, t in b.calls() if re.search(r"Index(Mut)?>?::index(_mut)?$", strip_generics(callee_def(t))) and re.match("^%s$" % PT, flow.describe(b, t["args"][0]))]
+    ok_idx = bool(idxc) and all(re.match(r"^Add\(%s, (cast\()?%s\)?\)(\.0)?$" % (START, IDX), flow.describe(b, t["args"][1])) is not None for bb, t in idxc)
+    ok_push = bool(pushes) and ok_idx and all(flow.describe(b, t["args"][1]).startswith("index(") for bb, t in pushes)
+    ok_within = True
+    for bb, t in within:
+        d = flow.describe(b, t["args"][1])
+        shape = re.match(r"^Range\{%s, Add\(%s, (cast\()?arg<u32>#1\)?\)(\.0)?\}$" % (START, START), d) is not None
+        guarded = False
+        for sb in sorted(b.normal_blocks()):
+            st = b.term(sb)
+            if st["k"] == "switch" and len(st["targets"]) == 1:
+                g = flow.describe(b, st["d"])
+                if re.match(r"^Ge\((cast\()?arg<u32>#0\)?, (cast\()?arg<u32>#1\)?\)$", g) and b.edge_dominates(sb, st["otherwise"], bb):
+                    guarded = True
+                if re.match(r"^Lt\((cast\()?arg<u32>#0\)?, (cast\()?arg<u32>#1\)?\)$", g) and b.edge_dominates(sb, st["targets"][0][1], bb):
+                    guarded = True
+        ok_within = ok_within and shape and guarded
+    good = (ok_push if pushes else bool(within)) and ok_within and not other
+    rep.add("T7", "window-copy-from-len-minus-dist", good, where,
+            "pushes: %s; block copies: %s; other mutations: %s" % ([flow.describe(b, t["args"][1])[:150] for bb, t in pushes], [flow.describe(b, t["args"][1])[:150] for bb, t in within], other))
+
+
 def t5b(F, rep):
     """Padding reads take exactly the bits still buffered.  After any read the bit reader holds 0..7 unread bits of the
     current byte; the stored-block header and the end of the stream skip to the byte boundary by reading *those* bits. A
@@ -276,3 +311,4 @@ def run(ctx, rep):
     t5(F, rep)
     t5b(F, rep)
     t6(F, rep)
+    t7(F, rep)
